@@ -255,6 +255,41 @@ theorem idle_after_any_history (fuel : Nat) (h : List (TopApi × Beh)) (m : Nat)
     obtain ⟨k, b⟩ := c
     exact ih _ (idle_after_any_api_call fuel k b s hfresh).2.1
 
+/-! ## generators: suspend / resume -/
+
+/-- **rebasing meets its spec** (vm.go suspend / resume): a try frame pushed in state `sA` of a generator activation,
+moved into the generator object by vm.suspend (lengths stored by enterNext: `il`, `rl`; stack base `sb - 1`) and
+reinstalled by vm.resume in a later activation, is exactly the frame `pushTryFrame` would create in the corresponding
+state `sB` of the new activation (same scope, call stack of the new activation, iterator / reference / operand
+stacks shifted to the new bases) — with the handler positions and the pending exception carried over.  This is the
+record the model's resumed constructs (`tryResumeH`, `tryResumeF`, a re-entered `try_`) work with. -/
+theorem rebase_meets_spec (sA sB : Vm) (tf : TryFrame) (il rl il' rl' : Nat) (sb sp' : Int)
+    (hF : FrameOf sA tf) (_hil : il ≤ sA.iterStack.length) (_hrl : rl ≤ sA.refStack.length)  -- (uint32 subtraction in Go)
+    (hi : sB.iterStack.length = il' + (sA.iterStack.length - il))
+    (hr : sB.refStack.length = rl' + (sA.refStack.length - rl))
+    (hsp : sB.sp = sp' + (sA.sp - (sb - 1))) (hst : sB.stash = sA.stash) (hpe : sB.privEnv = sA.privEnv) :
+    resumeFrame sB.callStack.length il' rl' sp' (suspendFrame il rl sb tf) =
+      { exception := tf.exception, callStackLen := sB.callStack.length, iterLen := sB.iterStack.length,
+        refLen := sB.refStack.length, sp := sB.sp, stash := sB.stash, privEnv := sB.privEnv,
+        catchPos := tf.catchPos, finallyPos := tf.finallyPos, finallyRet := tf.finallyRet } ∧
+    FrameOf sB (resumeFrame sB.callStack.length il' rl' sp' (suspendFrame il rl sb tf)) := by
+  have e1 : tf.iterLen - il + il' = sB.iterStack.length := by rw [hF.is, hi]; omega
+  have e2 : tf.refLen - rl + rl' = sB.refStack.length := by rw [hF.rs, hr]; omega
+  have e3 : tf.sp - (sb - 1) + sp' = sB.sp := by rw [hF.sp, hsp]; omega
+  refine ⟨?_, ⟨rfl, ?_, ?_, ?_, ?_, ?_⟩⟩
+  · simp only [resumeFrame, suspendFrame]
+    rw [e1, e2, e3, hst, hpe, hF.stash, hF.privEnv]
+  · simpa [resumeFrame, suspendFrame] using e1
+  · simpa [resumeFrame, suspendFrame] using e2
+  · simpa [resumeFrame, suspendFrame] using e3
+  · simp [resumeFrame, suspendFrame, hF.stash, hst]
+  · simp [resumeFrame, suspendFrame, hF.privEnv, hpe]
+
+/-- the iterator / reference records above the stored length are moved out and back unchanged -/
+theorem suspend_resume_records {α : Type} (base e base' : List α) :
+    (base ++ e).take base.length = base ∧ base' ++ (base ++ e).drop base.length = base' ++ e := by
+  simp
+
 /-! ## regression lemmas about the repaired steps -/
 
 /-- Runtime.Try at depth 0 clears flag and queue when an uncatchable passes (fix 9e5aa04) -/
